@@ -505,3 +505,132 @@ def check_many(queries, timeout_ms=60000, workers=None):
         with mp.get_context("fork").Pool(workers or min(16, len(jobs))) as pool:
             res = pool.map(_solve_smt2, jobs, chunksize=1)
     return [(v, DictModel(m) if m is not None else None, dt) for v, m, dt in res]
+
+
+# ---------------------------------------------------------------- generic slice runner
+def run_slice(I, fn, start_bb, locals_, stop_bb, pre=(), start_idx=0):
+    """execute `fn` from the top of start_bb with the given locals until control enters stop_bb in that frame;
+    exits of kind 'slice_end' carry the frame's locals"""
+    st = State()
+    st.pc = list(pre)
+    fr = Frame(fn)
+    fr.locals.update(locals_)
+    fr.bb, fr.idx = start_bb, start_idx
+    st.frames.append(fr)
+    I.deadline = time.time() + I.timeout_s
+    I.exits = []
+    orig_jump = I.jump
+
+    class Stop(Exception):
+        pass
+
+    def jump(state, frame, bb):
+        if frame.fn is fn and len(state.frames) == 1 and bb == stop_bb:
+            I.finish_path("slice_end", state, dict(frame.locals))
+            raise Stop()
+        orig_jump(state, frame, bb)
+    I.jump = jump
+    work = [st]
+    while work:
+        s = work.pop()
+        try:
+            res = I.step_until_fork(s)
+        except Stop:
+            continue
+        if res:
+            work.extend(res)
+    I.jump = orig_jump
+    return I.exits
+
+
+# ---------------------------------------------------------------- K-roll: window arm of resolve_special_func
+def k_roll():
+    register_enums()
+    funcs = load(r"resolve_special_func$|^transforms::range_is_empty$|^range_is_empty$")
+    name = [f for f in funcs if f.endswith("::resolve_special_func")]
+    if len(name) != 1:
+        raise core.EngineError(f"K-roll: resolve_special_func not found: {name}")
+    fn = funcs[name[0]]
+    dl = fn.debug_list
+    ki = None
+    for i, (nm, pl) in enumerate(dl):
+        if nm == "kind" and i + 2 < len(dl) and dl[i + 1][0] == "start" and dl[i + 2][0] == "end":
+            ki = i
+    if ki is None:
+        raise core.EngineError("K-roll: `let (kind, start, end)` not found in resolve_special_func")
+    loc = {}
+    for want in ("expanding", "rolling", "rows", "range"):
+        for nm, pl in reversed(dl[:ki]):
+            if nm == want:
+                loc[want] = int(pl[1:])
+                break
+    k_loc, s_loc, e_loc = (int(dl[ki + j][1][1:]) for j in range(3))
+    start_bb = stop_bb = None
+    for n, b in fn.blocks.items():
+        if b.term and b.term[0] == "switch":
+            for si, (_, rhs) in enumerate(b.stmts):
+                if rhs == f"copy _{loc['expanding']}":
+                    start_bb, start_idx = n, si
+        for lhs, rhs in b.stmts:
+            if lhs == f"_{e_loc}":
+                mm = re.search(r"\(_(\d+)\.2:", rhs)
+                if mm:
+                    stop_bb, tup_loc = n, int(mm.group(1))
+    if start_bb is None or stop_bb is None:
+        raise core.EngineError(f"K-roll: slice anchors not found (start={start_bb}, stop={stop_bb})")
+    exp = z3.Bool("expanding")
+    rol = z3.BitVec("rolling", 64)
+
+    def opt_pair(tag):
+        s, cs = sym_option(f"{tag}_s", SInt(z3.BitVec(f"{tag}_sv", 64), 64, True))
+        e, ce = sym_option(f"{tag}_e", SInt(z3.BitVec(f"{tag}_ev", 64), 64, True))
+        return SAgg("tuple", "", {0: s, 1: e}), [cs, ce]
+    rows, c1 = opt_pair("rows")
+    rng, c2 = opt_pair("range")
+    I = Interp(funcs, unwind=4, timeout_s=120)
+    exits = run_slice(I, fn, start_bb, {loc["expanding"]: SBool(exp), loc["rolling"]: SInt(rol, 64, True), loc["rows"]: rows, loc["range"]: rng},
+                      stop_bb, pre=c1 + c2, start_idx=start_idx)
+    return I, exits, tup_loc
+
+
+# ---------------------------------------------------------------- K-json: from_text's map_json_primitive
+def json_number_models(kind, u, i):
+    """serde_json::Number with the (non arbitrary-precision) representation N::{PosInt(u64), NegInt(i64), Float(f64)};
+    the documented contract of is_i64 / is_f64 / as_i64 / as_f64"""
+    from models import deref
+    imax = z3.BitVecVal((1 << 63) - 1, 64)
+    fits = z3.ULE(u, imax)
+
+    def is_i64(I, st, a):
+        return SBool(z3.If(kind == 0, fits, kind == 1))
+
+    def is_u64(I, st, a):
+        return SBool(kind == 0)
+
+    def is_f64(I, st, a):
+        return SBool(kind == 2)
+
+    def as_i64(I, st, a):
+        d = z3.If(z3.Or(z3.And(kind == 0, fits), kind == 1), z3.BitVecVal(1, 64), z3.BitVecVal(0, 64))
+        return SEnum("Option", d, {1: {0: SInt(z3.If(kind == 0, u, i), 64, True)}})
+
+    def as_f64(I, st, a):
+        return SEnum("Option", 1, {1: {0: SOpaque("f64", taint=False)}})
+    return {"serde_json::Number::is_i64": is_i64, "serde_json::Number::is_u64": is_u64, "serde_json::Number::is_f64": is_f64,
+            "serde_json::Number::as_i64": as_i64, "serde_json::Number::as_f64": as_f64}
+
+
+def k_json_prim():
+    sj = glob.glob(os.path.expanduser("~/.cargo/registry/src/*/serde_json-1.0.*/src/value/mod.rs"))[0]
+    register_enum("Value", enum_from_source(sj, "Value"))
+    funcs = load(r"^map_json_primitive$")
+    vd = z3.BitVec("json_kind", 64)
+    kind, u, i = z3.BitVec("num_repr", 64), z3.BitVec("num_u64", 64), z3.BitVec("num_i64", 64)
+    V = VARIANTS["Value"]
+    num = SAgg("struct", "Number", {0: SOpaque("N", False)})
+    val = SEnum("Value", vd, {V.index("Bool"): {0: SBool(z3.Bool("json_bool"))}, V.index("Number"): {0: num},
+                              V.index("String"): {0: SStr(z3.String("json_str"))}, V.index("Array"): {0: SOpaque("array", False)},
+                              V.index("Object"): {0: SOpaque("object", False)}})
+    pre = [z3.ULT(vd, len(V)), z3.ULT(kind, 3), z3.Implies(kind == 1, i < 0)]
+    I, exits = run_fn(funcs, "map_json_primitive", [val], pre, stubs=json_number_models(kind, u, i))
+    return I, exits, (vd, kind, u, i)
